@@ -56,7 +56,7 @@ pub fn run(o: &Opts) -> Report {
     let mut world = RWorld::new(&o.scratch);
     let (n_runs, n_ops) = if o.thorough() { (40, 50) } else { (8, 25) };
     let configs: Vec<&str> = if prop == "C08" {
-        vec!["ovl(mem,mem)", "ovl(mem,mem,mem)", "ovl(mem,mem,mem,mem)", "ovl(phys,mem)", "ovl(mem,phys)", "ovl(alt,alt)", "ovl(ovl,mem)"]
+        vec!["ovl(mem,mem)", "ovl(mem,mem,mem)", "ovl(mem,mem,mem,mem)", "ovl(phys,mem)", "ovl(mem,phys)", "ovl(alt,alt)", "ovl(ovl,mem)", "ovl(sib,sib)", "ovl(sibphys,sibphys)"]
     } else {
         vec!["alt(mem)", "alt(phys)", "alt(ovl)", "alt(alt)"]
     };
@@ -93,7 +93,28 @@ pub fn run(o: &Opts) -> Report {
             let mut alt_root = None;
             let target;
             let overlay_upper;
-            if prop == "C08" {
+            if prop == "C08" && cfg_kind.starts_with("ovl(sib") {
+                // both layers are sibling directories of ONE filesystem object (the documented way to
+                // stack a scratch directory over a read-only one on a single disk)
+                let pop_upper = rng.chance(1, 2);
+                let contents = gen_layers(&mut rng, 2, pop_upper);
+                let l = leaf(&mut lines, if cfg_kind.contains("phys") { "phys" } else { "mem" });
+                let direct = fs(&mut lines, format!("leaf {}", l));
+                let roots = ["/up", "/low"];
+                for (i, lay_root) in roots.iter().enumerate() {
+                    lines.push(L { both: true, text: format!("op {} create_dir {}", direct, enc_str(lay_root)) });
+                    let shifted: crate::tree_stream::Content = contents[i].iter().map(|(k, v)| (format!("{}{}", lay_root, k), v.clone())).collect();
+                    for pl in populate_lines(direct, &shifted, crate::tree_stream::Who::Both) {
+                        lines.push(L { both: true, text: pl.text });
+                    }
+                }
+                let rec = fs(&mut lines, format!("rec 0 {}", direct));
+                let up_view = fs(&mut lines, format!("alt {} {}", direct, enc_str("/up")));
+                let low_view = fs(&mut lines, format!("alt {} {}", direct, enc_str("/low")));
+                lowers.push(low_view);
+                target = fs(&mut lines, format!("ovl {}:{} {}:{}", rec, enc_str("/up"), rec, enc_str("/low")));
+                overlay_upper = Some(up_view);
+            } else if prop == "C08" {
                 let kinds: Vec<&str> = match *cfg_kind {
                     "ovl(mem,mem)" | "ovl(alt,alt)" | "ovl(ovl,mem)" => vec!["mem", "mem"],
                     "ovl(mem,mem,mem)" => vec!["mem", "mem", "mem"],
@@ -301,7 +322,12 @@ pub fn run(o: &Opts) -> Report {
                 .collect();
             if prop == "C08" {
                 for (tag, method, path) in &entries {
-                    if *tag >= 1 && is_mutating(method) {
+                    let on_lower = if r.cfg.starts_with("ovl(sib") { path == "/low" || path.starts_with("/low/") || !(path == "/up" || path.starts_with("/up/")) } else { *tag >= 1 };
+                    // copy_file(src, dest) is recorded under its source: with the source in the lower
+                    // directory it reads the lower layer (the copy-up); its destination is covered by
+                    // the lower-layer snapshot comparison below
+                    let reads_only = r.cfg.starts_with("ovl(sib") && method == "copyFile";
+                    if on_lower && is_mutating(method) && !reads_only {
                         rep.fail(mk("prop", format!("ovl:{}:mutating-call-on-lower-layer:{}", opname, method), format!("layer {} received the mutating call {}({:?})", tag, method, path), imp(st.log), "", st.log));
                         dead = true;
                         break;
